@@ -47,7 +47,7 @@ class ExecExpr(ExecBase):
     def adopt(self, st, s):
         if s is not st:
             st.env, st.heap, st.ver, st.epoch, st.cattr = s.env, s.heap, s.ver, s.epoch, s.cattr
-            st.pc, st.path, st.clock_off, st.ghost = s.pc, s.path, s.clock_off, s.ghost
+            st.pc, st.path, st.clock_off, st.ghost, st.inst = s.pc, s.path, s.clock_off, s.ghost, s.inst
 
     def merge_outcomes(self, st, outs):
         """merge forked pure outcomes into one value with ite; heap must be unchanged."""
@@ -451,6 +451,17 @@ class ExecExpr(ExecBase):
             return self.set_same_uf()(elem.t, x.t)
         return eq
 
+    def inf_axiom(self):
+        """A-real: +inf exceeds every value of the start_time observer"""
+        w = self.w
+        if "inf_axiom" in w.ufs:
+            return
+        w.ufs["inf_axiom"] = True
+        f = w.uf("obs:ICircuitOperation.start_time", z3.IntSort(), w.Ref, z3.RealSort())
+        e = z3.Int("inf_e")
+        x = z3.Const("inf_x", w.Ref)
+        w.perm_axioms.append(z3.ForAll([e, x], f(e, x) < z3.Real("INF"), patterns=[f(e, x)]))
+
     def set_same_uf(self):
         w = self.w
         if "set_same" not in w.ufs:
@@ -555,6 +566,12 @@ class ExecExpr(ExecBase):
 
     def get_attr(self, st, base, name):
         if isinstance(base, VModule):
+            if name == "inf" and base.name in ("np", "numpy", "math"):
+                # A-real: +inf is a real constant; contracts state explicitly what it exceeds
+                self.notes.append("A-real: np.inf is a real constant INF exceeding every reported start time (IEEE infinities are not modelled)")
+                self.inf_axiom()
+                yield st, V("real", z3.Real("INF"))
+                return
             yield st, VBuiltin(f"{base.name}.{name}")
             return
         if isinstance(base, VClass):
@@ -618,6 +635,16 @@ class ExecExpr(ExecBase):
                     yield from self.call_method(st, base, name, [], {}, is_property=True)
                 else:
                     yield st, VBound(base, name, base.cls)
+                return
+            # attribute that exists only below the static class: a checked downcast (obligation: isinstance)
+            owners = [q for q in self.w.subclasses(base.cls)
+                      if self.w.field_decl(q, name) is not None or self.w.find_member(q, name)[1] is not None]
+            tops = [q for q in owners if not any(o != q and self.w.is_subclass(q, o) for o in owners)]
+            if len(tops) == 1:
+                self.oblige("safe", st, self.w.isinstance_term(base.t, tops[0]),
+                            f"downcast to {self.w.short_name(tops[0])} for attribute {name}", name=self.next_call_id("cast"))
+                st.assume(self.w.isinstance_term(base.t, tops[0]))
+                yield from self.get_attr(st, V(base.kind, base.t, tops[0]), name)
                 return
             raise EngineError(f"unknown attribute {name} on {self.w.short_name(base.cls)}")
         if self.is_seq(base) or isinstance(base, VDict) or (isinstance(base, V) and isinstance(base.kind, tuple) and base.kind[0] == "dict"):
